@@ -33,7 +33,14 @@ EXTS = {
     "align": ["whatshap/align.pyx"],
     "_variants": ["whatshap/_variants.pyx"],
 }
-ORDER = ["core", "priorityqueue", "readselect", "align", "_variants"]
+SOLVER_SOURCES = [
+    "src/polyphase/allelematrix.cpp", "src/polyphase/clustereditingsolution.cpp", "src/polyphase/clustereditingsolver.cpp",
+    "src/polyphase/edgeheap.cpp", "src/polyphase/inducedcostheuristic.cpp", "src/polyphase/progenygenotypelikelihoods.cpp",
+    "src/polyphase/staticsparsegraph.cpp", "src/polyphase/switchflipcalculator.cpp", "src/polyphase/trianglesparsematrix.cpp",
+    "src/polyphase/readscoring.cpp", "src/polyphase/haplothreader.cpp", "src/polyphase/tupleconverter.cpp",
+]
+EXTS["polyphase.solver"] = ["whatshap/polyphase/solver.pyx"] + SOLVER_SOURCES
+ORDER = ["core", "polyphase.solver", "priorityqueue", "readselect", "align", "_variants"]
 
 
 def _hash_for(names):
@@ -44,6 +51,9 @@ def _hash_for(names):
     files.update(glob.glob(os.path.join(REPO, "src", "*.h")))
     files.update(glob.glob(os.path.join(REPO, "src", "hapchat", "*.h")))
     files.update(glob.glob(os.path.join(REPO, "whatshap", "*.pxd")))
+    if any(n.startswith("polyphase") for n in names):
+        files.update(glob.glob(os.path.join(REPO, "src", "polyphase", "*.h")))
+        files.update(glob.glob(os.path.join(REPO, "whatshap", "polyphase", "*.pxd")))
     for f in sorted(files):
         p = f if os.path.isabs(f) else os.path.join(REPO, f)
         h.update(f.encode())
@@ -67,7 +77,7 @@ def ext_suffix():
 
 def build_ext(name):
     """Build one extension from the working tree; returns the .so path."""
-    key = _hash_for([name] if name != "readselect" else ["readselect", "core", "priorityqueue"])
+    key = _hash_for({"readselect": ["readselect", "core", "priorityqueue"], "polyphase.solver": ["polyphase.solver", "core"]}.get(name, [name]))
     out = os.path.join(CACHE, "%s-%s%s" % (name, key, ext_suffix()))
     if os.path.exists(out):
         return out
@@ -79,7 +89,7 @@ def build_ext(name):
         inc = sysconfig.get_paths()["include"]
         srcs = EXTS[name]
         pyx = srcs[0]
-        gen = os.path.join(work, name + ".cpp")
+        gen = os.path.join(work, name.split(".")[-1] + ".cpp")
         cython = os.path.join(os.path.dirname(sys.executable), "cython")
         if not os.path.exists(cython):
             cython = "/venv/bin/cython"
@@ -112,10 +122,25 @@ def build_ext(name):
 _loaded = {}
 
 
+def prepare_repo():
+    """A scratch worktree (VERIF_REPO) lacks the generated _version.py and must
+    come first on sys.path (the editable install points at /repo)."""
+    if REPO != "/repo":
+        v = os.path.join(REPO, "whatshap", "_version.py")
+        if not os.path.exists(v):
+            open(v, "w").write("version = __version__ = '0.0.verif'\nversion_tuple = (0, 0)\n")
+        if REPO not in sys.path:
+            sys.path.insert(0, REPO)
+
+
+
 def load_real(names=ORDER):
     """Load freshly built extensions as whatshap.<name> (must run before the
     first `import whatshap` in this process)."""
-    names = [n for n in ORDER if n in names or (n == "core" and "readselect" in names) or (n == "priorityqueue" and "readselect" in names)]
+    prepare_repo()
+    names = [n for n in ORDER if n in names or (n == "core" and ("readselect" in names or "polyphase.solver" in names)) or (n == "priorityqueue" and "readselect" in names)]
+    if REPO != "/repo" and "polyphase.solver" not in names and not glob.glob(os.path.join(REPO, "whatshap", "polyphase", "solver*.so")):
+        names = [n for n in ORDER if n in names or n in ("core", "polyphase.solver")]
     if "whatshap" in sys.modules and any(("whatshap." + n) not in _loaded for n in names):
         for n in names:
             if ("whatshap." + n) in sys.modules and ("whatshap." + n) not in _loaded:
@@ -138,7 +163,8 @@ def load_real(names=ORDER):
     import whatshap  # noqa
 
     for n in names:
-        setattr(sys.modules["whatshap"], n, sys.modules["whatshap." + n])
+        if "." not in n:
+            setattr(sys.modules["whatshap"], n, sys.modules["whatshap." + n])
     return {n: sys.modules["whatshap." + n] for n in names}
 
 
